@@ -17,7 +17,9 @@ RULE = ("case = one history on a fresh chain through BeginBlock/DeliverTx/EndBlo
         "MsgCreateFunToken (coin / erc20, incl. duplicates and nonexistent contracts), MsgConvertCoinToEvm (both births), "
         "precompile sendToBank / sendToEvm / bankMsgSend (direct from an EOA or through a forwarder contract: plain, "
         "revert-at-top, reverting sub-frame, swallowed failure, once-then-reverted; hex / bech32 / unparsable recipient; "
-        "low gas; plus fixed gas-STIPEND sweeps: the forwarder repeats one conversion with a descending explicit gas stipend, "
+        "low gas; x/tokenfactory admin txs on factory denoms that have a coin-born mapping — create, mint_to, burn_from (30% aimed "
+        "at the EVM module account), change admin — and plain bank send / multisend (30% aimed at the module account); "
+        "plus fixed gas-STIPEND sweeps: the forwarder repeats one conversion with a descending explicit gas stipend, "
         "steps of 1000 (quick) / 200 (thorough) over 230k..40k), ERC20 transfer / burn (incl. donations to the module), pairs of ops in ONE transaction (two forwarder calls in "
         "one EVM tx, two messages in one Cosmos tx: both or nothing); amounts small, zero, above balance, huge, negative. "
         "Observed after EVERY tx: accepted?, registry, totalSupply, balanceOf(module), bank supply, module escrow per mapping, "
@@ -67,6 +69,8 @@ def _den(d):
         return "(DCoin 998%nat)"
     if d["k"] == "g":
         return "DGas"
+    if d["k"] == "t":
+        return "(DCoin %d%%nat)" % (2000 + int(d["n"]))
     return "(%s %s)" % ("DErc" if d["k"] == "e" else "DCoin", _n(d["n"]))
 
 
@@ -124,6 +128,25 @@ def _op_of(op, tx_ok, ntok):
         base = "CreateFromCoin %s %s" % (_n(a), _den(op.get("d")))
     elif k == "create_erc20":
         base = "CreateFromErc20 %s %s" % (_n(a), _n(t))
+    elif k == "tf_create":
+        d = op.get("d") or {}
+        if d.get("k") != "t" or d.get("n", 0) // 10 != a or a not in (3, 4):
+            base = "Framed FBadArgs (SetMeta (DCoin 0%nat))"
+        else:
+            base = "TfCreate %s %s" % (_n(a), _den(d))
+    elif k in ("tf_mint", "tf_burn", "tf_change_admin", "bank_send", "bank_multisend") and (a not in (3, 4) or op.get("d") is None):
+        base = "Framed FBadArgs (SetMeta (DCoin 0%nat))"
+    elif k == "tf_mint":
+        base = "TfMint %s %s %s %s" % (_n(a), _den(op.get("d")), _amt(op), _n(to))
+    elif k == "tf_burn":
+        base = "TfBurn %s %s %s %s" % (_n(a), _den(op.get("d")), _amt(op), _n(to))
+    elif k == "tf_change_admin":
+        base = "TfChangeAdmin %s %s %s" % (_n(a), _den(op.get("d")), _n(to))
+    elif k == "bank_send":
+        base = "BankMsgSend %s %s %s %s" % (_n(a), _n(to), _den(op.get("d")), _amt(op))
+    elif k == "bank_multisend":
+        base = "Seq (BankMsgSend %s %s %s %s) (BankMsgSend %s %s %s %s)" % (
+            _n(a), _n(to), _den(op.get("d")), _amt(op), _n(a), _n(op.get("to2", 0)), _den(op.get("d")), _z(op.get("x2") or "0"))
     elif k == "convert":
         base = "ConvertCoinToEvm %s %s %s %s" % (_n(a), _den(op.get("d")), _amt(op), _n(to))
     elif k == "send_to_bank":
